@@ -116,9 +116,12 @@ class Gen:
                 # \weblink{url}{text}: comments and formulas are switched off in the url ONLY; the text is ordinary
                 url = r.choice(['http://a.b/c%d', 'x$y', 'u~v%w', 'plain', 'a%b$c', ''])
                 return '\\weblink{' + url + '}' + r.choice(['', ' ', '\n']) + '{' + self.items(depth + 1, visible) + '}'
-            # a formula environment whose body first declares \why{..} (discarded on output), then enters math mode
             m = self.mk('DSC')
             self.discards.append(m)
+            if r.random() < 0.4:
+                # macros the converter database re-declares as discarded in a category inserted before the defining one
+                return r.choice(['\\mathrm{', '\\textsc{']) + m + r.choice(['', ' x', ' $y$']) + '}'
+            # a formula environment whose body first declares \why{..} (discarded on output), then enters math mode
             return '\\begin{derivation}x \\why{' + m + r.choice(['', ' $y$', ' z']) + '} = w\\end{derivation}'
         if k < 0.36:
             return self.comment(visible)
@@ -196,7 +199,7 @@ def gen_cases(seed, tier):
     for _ in range(600 if tier == 'quick' else 10000):
         g = Gen(r2, custom=True)
         s = g.items(0, True)
-        if '\\weblink' not in s and '{derivation}' not in s:
+        if '\\weblink' not in s and '{derivation}' not in s and '\\mathrm' not in s and '\\textsc' not in s:
             continue
         meta = {'comments': g.comments, 'maths': g.maths, 'discards': g.discards}
         cases.append(_case(s, _opts(r2), meta, custom=True))
